@@ -110,6 +110,8 @@ def access_checks(system, ids, listed):
         try:
             m = system[i]
             ok = ok and [a.atomid for a in m] == ids[i]
+        except common.CaseTimeout:
+            raise
         except Exception:
             ok = False
     for i in (n, -n - 1, n + 3):
@@ -118,6 +120,8 @@ def access_checks(system, ids, listed):
             ok = False
         except IndexError:
             pass
+        except common.CaseTimeout:
+            raise
         except Exception:
             ok = False
     r['index'] = ok
@@ -127,6 +131,8 @@ def access_checks(system, ids, listed):
         try:
             got = [[a.atomid for a in m] for m in system[sl]]
             ok = ok and got == ids[sl]
+        except common.CaseTimeout:
+            raise
         except Exception:
             ok = False
     # a suspended iteration must not depend on other reads made in the meantime
@@ -142,6 +148,8 @@ def access_checks(system, ids, listed):
                     for _m in system:
                         break
         ok = ok and got == ids
+    except common.CaseTimeout:
+        raise
     except Exception:
         ok = False
     r['slices'] = ok
@@ -182,6 +190,7 @@ def _replay(args):
             why = None
             detail = {}
             try:
+              with common.Guard(60):
                 system = System(lay.gro)
                 prev = []
                 for step, o in enumerate(beh['obs']):
@@ -264,6 +273,7 @@ def _work_random(args):
                 order.insert(int(rng.integers(0, len(order) + 1)), order[0])
             ev = []
             try:
+              with common.Guard(120):
                 lay = Layout(os.path.join(workdir, 'p%d' % os.getpid()), 't%d' % tid, mols, pattern, kinds)
                 system = System(lay.gro)
                 for sp in order:
